@@ -1,3 +1,4 @@
+import PcfgVerif.Generated.ProcessState
 import PcfgVerif.Properties.OmenTrainCore
 import PcfgVerif.Lemmas.OmenProbLemmas
 import PcfgVerif.Lemmas.OmenFilesD
@@ -187,5 +188,13 @@ example :
     t.levelsCount pws = [(some 0, 2), (none, 1)] ∧
     omenProbs ratNOps (t.calcKeyspace 100 3 0) (t.levelsCount pws) pws.length = [(0, 2 / 3), (1, 0), (2, 0)] := by
   decide +kernel
+
+/-- **nothing outlives a call except the objects a caller holds** (regenerated from the four library packages): no module-level or
+class-level mutable container, no cache decorator or cache call (`functools.lru_cache`, `cache`), no mutable or computed default
+argument and no `global` statement anywhere in `lib_guesser`, `lib_trainer`, `lib_scorer`, `lib_princeling`.  The models of this file are
+functions of the objects handed to the code (grammar, detector, tables, memo table); this is the fact that lets them be: an answer cannot
+depend on what another object, an earlier ruleset in the same process or the other thread did -/
+theorem C18_no_process_wide_state : Generated.ProcessState.processWideState = [] := by
+  decide
 
 end Pcfg.C18
